@@ -1,5 +1,7 @@
 import GeoVerif.Proofs.TM
 import GeoVerif.Proofs.TMX
+import GeoVerif.Proofs.TMSeriesKernel
+import GeoVerif.Proofs.TMCoeffEval
 import GeoVerif.Proofs.TMCertGF
 import GeoVerif.Proofs.TMCertFG
 import GeoVerif.Series.AuxDecode
@@ -333,5 +335,134 @@ theorem tmx_sigma_scale_rewrites (p : Par ℝ) (hp : ParOK p) (j : Jac ℝ) (hj 
     p.mu * RealLike.sq j.cnu + p.mv * RealLike.sq j.cnv = j.dnu ^ 2 + j.dnv ^ 2 - 1 ∧
     p.mv * RealLike.sq j.snv + RealLike.sq (j.cnu * j.dnv) = 1 - j.snu ^ 2 * j.dnv ^ 2 :=
   sigma_scale_rewrites p hp j hj
+
+
+/-! ## 7. the series kernel as coded (`TM.fwdKernel`, `TM.revKernel`, read at `ℝ`): the conformal map it is
+
+`F(ζ) = ζ + Σ_j α_j sin 2jζ`, `G(ζ) = ζ − Σ_j β_j sin 2jζ` with `α_j = _alp[j]`, `β_j = _bet[j]` *as the constructor computes them* from the tables
+extracted on this run (`alpOf f`, `nbetOf f`).  `ζ' = ξ' + iη'` are the Gauss–Schreiber coordinates as coded. -/
+open GeoVerif.Proofs.TMSeries GeoVerif.Proofs.TMCoeff
+
+/-- **(b) the second output of the complex Clenshaw pair is the complex derivative of the first**: `F'(ζ) = dF/dζ` — the pair the code uses for
+    position and for convergence/scale is Cauchy–Riemann consistent, for every coefficient vector -/
+theorem tm_kruger_derivative (cs : List ℝ) (ζ : ℂ) : HasDerivAt (krF cs) (krF' cs ζ) ζ := hasDerivAt_krF cs ζ
+
+/-- **(a) Gauss–Schreiber step = spherical transverse Mercator relations** (Krüger (25)): `cos ξ' = cos λ/h`, `sin ξ' = τ'/h`, `sinh η' = sin λ/h`,
+    `cosh η' = √(1 + τ'²)/h` (`h = hypot(τ', cos λ)`), hence `tan ξ' = τ'/cos λ`, `tanh η' = sin λ/√(1 + τ'²) = cos φ' sin λ` -/
+theorem tm_gauss_schreiber (τ' slam clam : ℝ) (hsc : slam ^ 2 + clam ^ 2 = 1) (hh : 0 < τ' ^ 2 + clam ^ 2) :
+    Real.cos (gsXi τ' clam) = clam / Real.sqrt (τ' ^ 2 + clam ^ 2) ∧ Real.sin (gsXi τ' clam) = τ' / Real.sqrt (τ' ^ 2 + clam ^ 2) ∧
+    Real.sinh (gsEta τ' slam clam) = slam / Real.sqrt (τ' ^ 2 + clam ^ 2) ∧
+    Real.cosh (gsEta τ' slam clam) = Real.sqrt (1 + τ' ^ 2) / Real.sqrt (τ' ^ 2 + clam ^ 2) ∧
+    Real.tan (gsXi τ' clam) = τ' / clam ∧ Real.tanh (gsEta τ' slam clam) = slam / Real.sqrt (1 + τ' ^ 2) :=
+  ⟨(gs_relations τ' slam clam hsc hh).1, (gs_relations τ' slam clam hsc hh).2.1, (gs_relations τ' slam clam hsc hh).2.2.1,
+   (gs_relations τ' slam clam hsc hh).2.2.2, (gs_tan τ' slam clam hsc hh).1, (gs_tan τ' slam clam hsc hh).2⟩
+
+example : (3 / 5 : ℝ) ^ 2 + (4 / 5) ^ 2 = 1 ∧ (0 : ℝ) < 2 ^ 2 + (4 / 5) ^ 2 := by norm_num
+
+/-- **(a) … in closed form**: with `ψ = asinh τ'` the isometric latitude of the conformal sphere and `w = ψ + iλ` its Mercator coordinate,
+    `sin ζ' = tanh w` and `cos ζ' · cosh w = 1`, i.e. `ζ' = gd(w)` (the transverse Mercator projection of the sphere); and the complex number whose
+    `atan2` and `hypot` `Forward` forms for the Gauss–Schreiber convergence and scale is `cosh w = (dζ'/dw)⁻¹` -/
+theorem tm_gauss_schreiber_sphere (τ' l : ℝ) (hh : 0 < τ' ^ 2 + Real.cos l ^ 2) :
+    Complex.sin ⟨gsXi τ' (Real.cos l), gsEta τ' (Real.sin l) (Real.cos l)⟩ = Complex.tanh ⟨Real.arsinh τ', l⟩ ∧
+    Complex.cos ⟨gsXi τ' (Real.cos l), gsEta τ' (Real.sin l) (Real.cos l)⟩ * Complex.cosh ⟨Real.arsinh τ', l⟩ = 1 ∧
+    gamma0 τ' (Real.sin l) (Real.cos l) = Complex.arg (Complex.cosh ⟨Real.arsinh τ', l⟩) * (TM.deg : ℝ) ∧
+    Real.sqrt (τ' ^ 2 + Real.cos l ^ 2) = ‖Complex.cosh ⟨Real.arsinh τ', l⟩‖ :=
+  ⟨(gs_is_sphere_tm τ' l hh).1, (gs_is_sphere_tm τ' l hh).2, (gs_gamma_k τ' l).1, (gs_gamma_k τ' l).2⟩
+
+example : (0 : ℝ) < 1 ^ 2 + Real.cos 0 ^ 2 := by norm_num
+
+/-- **(b) `Forward` (first quadrant, not the pole) as coded**: `ξ + iη = F(ζ')`, `γ = γ' − arg F'(ζ')` (degrees), `k = k'·b1·|F'(ζ')|`, with `γ'`, `k'`
+    the Gauss–Schreiber values as coded — convergence and scale are the rotation and magnification of the composed map -/
+theorem tm_forward_kernel (f lon sphi cphi slam clam : ℝ) :
+    let τ' := taupOf f sphi cphi
+    let ζ' : ℂ := ⟨gsXi τ' clam, gsEta τ' slam clam⟩
+    let r := fwdKernel f false lon sphi cphi slam clam
+    (⟨r.p, r.q⟩ : ℂ) = krF (alpOf f) ζ' ∧
+    r.gamma = gamma0 τ' slam clam - Complex.arg (krF' (alpOf f) ζ') * (TM.deg : ℝ) ∧
+    r.k = k0GS f sphi cphi τ' clam * (b1 (nOf f) * ‖krF' (alpOf f) ζ'‖) :=
+  fwd_kernel_spec f lon sphi cphi slam clam
+
+/-- **(b) `Reverse` (first quadrant) as coded**: `ζ' = G(ζ)`; off the pole image `lat = atan τ`, `τ = tauf(sin ξ'/r)`, `lon = atan2(sinh η', cos ξ')`,
+    `γ = arg G'(ζ) + atan2(sin ξ' tanh η', cos ξ')`, `k = b1/|G'(ζ)|·k'`; at the pole image (`r = 0`) `lat = 90`, `k = b1/|G'|·_c` -/
+theorem tm_reverse_kernel (f ξ η : ℝ) :
+    let ζ : ℂ := ⟨ξ, η⟩
+    let ζ' := krF (nbetOf f) ζ
+    let r := revKernel f ξ η
+    let s := Real.sinh ζ'.im
+    let c := max 0 (Real.cos ζ'.re)
+    let h := Real.sqrt (s ^ 2 + c ^ 2)
+    (h ≠ 0 →
+      let τ := tauf (Real.sin ζ'.re / h) (esOf f)
+      r.p = Complex.arg ⟨1, τ⟩ * (TM.deg : ℝ) ∧ r.q = Complex.arg ⟨c, s⟩ * (TM.deg : ℝ) ∧
+      r.gamma = Complex.arg (krF' (nbetOf f) ζ) * (TM.deg : ℝ) + Complex.arg ⟨c, Real.sin ζ'.re * (s / TM.cosh ζ'.im)⟩ * (TM.deg : ℝ) ∧
+      r.k = b1 (nOf f) / ‖krF' (nbetOf f) ζ‖ *
+        (Real.sqrt ((1 - e2Of f) + e2Of f / (1 + τ * τ)) * Real.sqrt (1 ^ 2 + τ ^ 2) * h)) ∧
+    (h = 0 → r.p = 90 ∧ r.q = 0 ∧ r.gamma = Complex.arg (krF' (nbetOf f) ζ) * (TM.deg : ℝ) ∧ r.k = b1 (nOf f) / ‖krF' (nbetOf f) ζ‖ * cOf f) :=
+  rev_kernel_spec f ξ η
+
+/-- **(c) `Reverse` after `Forward` on the series step is the composition `G ∘ F`** (exactly, over `ℂ`, as coded): feeding the `(ξ, η)` returned by the
+    Krüger step of `Forward` into the Krüger step of `Reverse` returns `G(F(ζ'))`.  That `G ∘ F` and `F ∘ G` are the identity modulo `n⁷` *as
+    trigonometric series in `ζ'`* (all harmonics, Taylor substitution of the inner series) is what `alp_bet_revert` / `bet_alp_revert` certify on the
+    extracted tables, for the polynomials whose values at `n` these coefficients are (`tm_coeffs_eval`); so `Reverse(Forward) = id + O(n⁷)` formally.
+    Not proved: a bound of the `O(n⁷)` remainder over `ℝ` (the nanometre figures come from the oracle). -/
+theorem tm_reverse_of_forward_series (f ξ' η' : ℝ) :
+    let z := (kr (alpOf f) ξ' η').1
+    toC (kr (nbetOf f) z.re z.im).1 = krF (nbetOf f) (krF (alpOf f) ⟨ξ', η'⟩) := by
+  intro z
+  rw [(kr_value (nbetOf f) z.re z.im).1, ← (kr_value (alpOf f) ξ' η').1]
+  rfl
+
+/-- **(d) `η = 0 ⇔ λ = 0`** (first quadrant, not the pole), wherever the derivative series `Σ_j 2j|α_j| cosh 2jη'` stays below 1 -/
+theorem tm_eta_zero_iff (f lon sphi cphi slam clam : ℝ) (hh : 0 < (taupOf f sphi cphi) ^ 2 + clam ^ 2)
+    (hs : absD (gsEta (taupOf f sphi cphi) slam clam) 0 (alpOf f) < 1) :
+    (fwdKernel f false lon sphi cphi slam clam).q = 0 ↔ slam = 0 :=
+  fwd_eta_zero_iff f lon sphi cphi slam clam hh hs
+
+/-- non-vacuity: on the sphere (`f = 0`) every `α_j` the constructor computes is `0`, the derivative series vanishes, and the hypotheses hold -/
+example (η : ℝ) : (0 : ℝ) < (taupOf 0 0 1) ^ 2 + 1 ^ 2 ∧ absD η 0 (alpOf 0) < 1 := by
+  refine ⟨by positivity, ?_⟩
+  have h0 : nOf (0 : ℝ) = 0 := by simp [nOf]
+  have : alpOf 0 = List.replicate TM.N 0 := by unfold alpOf; rw [h0]; exact coeffs_zero _
+  rw [this]
+  have hz : ∀ (m k : ℕ), absD η k (List.replicate m 0) = 0 := by
+    intro m; induction m with
+    | zero => intro k; rfl
+    | succ m ih => intro k; simp [List.replicate_succ, absD, ih]
+  rw [hz]; norm_num
+
+/-- **(d) central meridian**: `η = 0` and `ξ = χ + Σ_j α_j sin 2jχ`, `χ = atan τ'` the conformal latitude, so `y = k0·a·b1·(χ + Σ α_j sin 2jχ)`
+    (`_a1 = a·b1`, wrapper theorem `tm_forward_canonical`); where `dξ/dχ = 1 + Σ 2jα_j cos 2jχ ≥ 0` also `γ = 0` and `k = k'·b1·dξ/dχ` -/
+theorem tm_central_meridian (f lon sphi cphi : ℝ) :
+    let τ' := taupOf f sphi cphi
+    let χ := Real.arctan τ'
+    let r := fwdKernel f false lon sphi cphi 0 1
+    r.q = 0 ∧ r.p = χ + sinSeries χ 0 (alpOf f) ∧
+    (0 ≤ 1 + dcosSeries χ 0 (alpOf f) →
+      r.gamma = 0 ∧ r.k = k0GS f sphi cphi τ' 1 * (b1 (nOf f) * (1 + dcosSeries χ 0 (alpOf f)))) :=
+  fwd_central_meridian f lon sphi cphi
+
+/-- **`_alp[l]`, `_bet[l]` as computed are the values at `n` of the certified polynomials**: for every table, `l = i + 1 ≤ N` and real `n`,
+    `(coeffs tbl n)[i] = ev (blockPoly tbl (i + 1)) n`, `blockPoly` = the truncated power series of the certificates (`tmBlock`) -/
+theorem tm_coeffs_eval (tbl : List Rat) (n : ℝ) (i : ℕ) (hi : i < TM.N) :
+    (coeffs tbl n).getD i 0 = ev (blockPoly tbl (i + 1)) n ∧ blockPoly tbl (i + 1) = tmBlock tbl (i + 1) :=
+  ⟨coeffs_eval tbl n i hi, rfl⟩
+
+example : (0 : ℕ) < TM.N := by decide
+
+/-- *Gen* — the polynomials of `alpcoeff` / `−betcoeff` **are** (as coefficient lists) the `μ ← χ` / `χ ← μ` polynomials decoded from the
+    `AuxLatitude` table (both extracted from the source on this run) -/
+theorem alp_is_aux_list :
+    (∀ i, i < TM.N → tmBlock Gen.TMSeries.alpcoeff (i + 1) = (AuxDecode.block Gen.AuxSeries.RECTIFYING Gen.AuxSeries.CONFORMAL).getD i []) ∧
+    (∀ i, i < TM.N → Poly.smul (-1) (tmBlock Gen.TMSeries.betcoeff (i + 1)) = (AuxDecode.block Gen.AuxSeries.CONFORMAL Gen.AuxSeries.RECTIFYING).getD i []) := by
+  decide +kernel
+
+/-- **(d) the northing on the central meridian is the rectifying-latitude series certified in C15** (*Gen*): the coefficients `α_j` in
+    `ξ = χ + Σ α_j sin 2jχ` (`tm_central_meridian`) are the values at `n = f/(2 − f)` of the `μ ← χ` polynomials of `AuxLatitude.cpp`, which the C15
+    obligations (`chi_ode`, `mu_beta_table`, `aux_revert`, `aux_compose_partial`) tie to the defining relations of the conformal and rectifying
+    latitudes modulo `n⁷`; hence `y/k0 = a·b1·μ(χ)` in the series sense, `a·b1·π/2` being the quarter meridian (`b1_table`) -/
+theorem tm_central_meridian_is_rectifying (f : ℝ) (i : ℕ) (hi : i < TM.N) :
+    (alpOf f).getD i 0 = ev ((AuxDecode.block Gen.AuxSeries.RECTIFYING Gen.AuxSeries.CONFORMAL).getD i []) (nOf f) := by
+  rw [← alp_is_aux_list.1 i hi]
+  exact coeffs_eval Gen.TMSeries.alpcoeff (nOf f) i hi
 
 end GeoVerif.Props.C06
